@@ -5,6 +5,7 @@ import ast
 
 from ..algebra import NotPolynomial, Poly, ToPoly
 from ..amatch import AM
+from ..flow import expand
 from ..report import AnalysisError
 from ..srcmodel import norm
 from .c07 import axis_slices, dim_guard
@@ -23,18 +24,23 @@ def rule_a(ctx):
     g = f.params[1]
     am = AM(f)
     ctx.instance(R)
-    d1 = (am.has(f.node, f"div_data = np.concatenate([{g}.face_vol[d] * np.tile([1, -1], {g}.num_faces_per_axis[d]) for d in range({g}.dim)])")
-          or am.has(f.node, f"div_data = np.concatenate([np.tile([1, -1], {g}.num_faces_per_axis[d]) * {g}.face_vol[d] for d in range({g}.dim)])"))
-    ctx.ob(R, f.qname, "data: face area of axis d times the sign pair (+1, -1), one pair per face of axis d", d1 is not None, "", f.node)
-    d2 = am.has(f.node, f"div_row = np.concatenate([np.ravel({g}.connectivity[{g}.faces[d]]) for d in range({g}.dim)])")
-    ctx.ob(R, f.qname, "rows: (lower cell, higher cell) of each face of axis d, in face order", d2 is not None, "", f.node)
-    d3 = am.has(f.node, f"div_col = np.repeat(np.arange({g}.num_faces, dtype=int), 2)")
-    ctx.ob(R, f.qname, "columns: each face index twice", d3 is not None, "", f.node)
-    d4 = am.has(f.node, f"div_shape = ({g}.num_cells, {g}.num_faces)")
-    ctx.ob(R, f.qname, "shape (num_cells, num_faces)", d4 is not None, "", f.node)
-    d5 = any(am.has(f.node, f"div = sps.{k}((div_data, (div_row, div_col)), shape=div_shape)") is not None for k in ("csc_matrix", "csr_matrix", "coo_matrix"))
-    ctx.ob(R, f.qname, "matrix assembled from (data, (rows, cols)) with that shape", d5, "", f.node)
-    ctx.ob(R, f.qname, "the assembled matrix is what the operator exposes", am.has(f.node, "self.mat = div") is not None, str(am.show()), f.node)
+    # the value stored in self.mat, with every once-bound local replaced by its definition
+    sts = [s_ for s_ in ast.walk(f.node) if isinstance(s_, ast.Assign) and any(norm(t) == "self.mat" for t in s_.targets)]
+    ctx.need(len(sts) == 1, f"{f.qname}: single assignment of self.mat not found")
+    E = expand(f.node, sts[0].value)
+    okc = isinstance(E, ast.Call) and norm(E.func) in ("sps.csc_matrix", "sps.csr_matrix", "sps.coo_matrix") and len(E.args) == 1 and isinstance(E.args[0], ast.Tuple) and len(E.args[0].elts) == 2 \
+        and isinstance(E.args[0].elts[1], ast.Tuple) and len(E.args[0].elts[1].elts) == 2
+    ctx.ob(R, f.qname, "the operator exposes a sparse matrix assembled from (data, (rows, cols))", okc, norm(E)[:120], f.node)
+    if okc:
+        data, (rows, cols) = E.args[0].elts[0], E.args[0].elts[1].elts
+        shape = next((k.value for k in E.keywords if k.arg == "shape"), None)
+        d1 = am.eq(data, f"np.concatenate([{g}.face_vol[d] * np.tile([1, -1], {g}.num_faces_per_axis[d]) for d in range({g}.dim)])") \
+            or am.eq(data, f"np.concatenate([np.tile([1, -1], {g}.num_faces_per_axis[d]) * {g}.face_vol[d] for d in range({g}.dim)])")
+        ctx.ob(R, f.qname, "data: face area of axis d times the sign pair (+1, -1), one pair per face of axis d", d1, norm(data)[:140], f.node)
+        ctx.ob(R, f.qname, "rows: (lower cell, higher cell) of each face of axis d, in face order",
+               am.eq(rows, f"np.concatenate([np.ravel({g}.connectivity[{g}.faces[d]]) for d in range({g}.dim)])"), norm(rows)[:140], f.node)
+        ctx.ob(R, f.qname, "columns: each face index twice", am.eq(cols, f"np.repeat(np.arange({g}.num_faces, dtype=int), 2)"), norm(cols)[:140], f.node)
+        ctx.ob(R, f.qname, "shape (num_cells, num_faces)", shape is not None and am.eq(shape, f"({g}.num_cells, {g}.num_faces)"), norm(shape) if shape is not None else "", f.node)
     ctx.floor(R, 1)
 
 
